@@ -158,6 +158,14 @@ def two_app_family():
                             {'label': 'e2', 'after_evolutions': ['lapp'],
                              'muts': [{'t': 'AddField', 'model': 'Alpha', 'field': 'c', 'ftype': 'CharField',
                                        'initial': None, 'attrs': [['max_length', '30'], ['null', 'true']]}]}],
+             'rows': False, 'family': 'two-apps-not-alphabetical'},
+            # ... and the second app is up to date, with raw SQL in an evolution applied long ago: nothing of that is
+            # previewed or executed when the first app is upgraded
+            {'spec0': {'apps': [{'id': 'vapp', 'models': [v0]}, {'id': 'lapp', 'models': [l0]}]},
+             'spec1': {'apps': [{'id': 'vapp', 'models': [v1]}, {'id': 'lapp', 'models': [l0]}]},
+             'muts': [add('Alpha', 'b')],
+             'applied_first': {'lapp': [{'t': 'SQLMutation', 'tag': 'old_fix', 'can_simulate': True,
+                                         'sql': ['UPDATE lapp_thing SET t = 1;', 'UPDATE lapp_thing SET t = t + 1;']}]},
              'rows': False, 'family': 'two-apps-not-alphabetical'}]
 
 
